@@ -204,7 +204,10 @@ def observe(m, tg, sens_cols=None, ctx=None, hist=None):
             ctx.count('sensitivities_vs_fd')
             fd = _fd_sensitivities(m, p, cols)
             got = o['sensitivities']
-            sc = float(np.max(np.abs(fd))) + 1e-6
+            # (finite-difference noise is relative to the size of the
+            # simulated values: a true zero sensitivity shows as ~1e-8)
+            sc = max(float(np.max(np.abs(fd))),
+                     float(np.max(np.abs(o['simulation'])))) + 1e-6
             if got.shape != fd.shape or not ctx.close(
                     got, fd, rtol=1e-4, scale=sc):
                 ctx.violation(
